@@ -6,6 +6,7 @@ import (
 	"strings"
 
 	"github.com/go-gts/gts"
+	"github.com/go-gts/gts/seqio"
 	"verif/engine"
 	"verif/locdom"
 	"verif/refmodel"
@@ -230,4 +231,22 @@ func multiTables() (L int, tables [][]string) {
 
 func hasAmbiguous(loc gts.Location) bool {
 	return anyNode(loc, func(l gts.Location) bool { _, ok := l.(gts.Ambiguous); return ok })
+}
+
+// decodedGenBank is a non-initial representation of a sequence: a GenBank record whose ORIGIN block has already
+// been decoded in place by an earlier read of its residues (a freshly parsed or constructed record still holds
+// the formatted block). Operations must treat both forms alike.
+func decodedGenBank(res []byte, ff gts.FeatureSlice) gts.Sequence {
+	gb := seqio.GenBank{Fields: seqio.GenBankFields{LocusName: "X", Molecule: gts.DNA, Topology: gts.Linear}, Table: ff, Origin: seqio.NewOrigin(cloneBytes(res))}
+	_ = gb.Bytes()
+	return gb
+}
+
+func allLetters(p []byte) bool {
+	for _, b := range p {
+		if !(b >= 'a' && b <= 'z' || b >= 'A' && b <= 'Z') {
+			return false
+		}
+	}
+	return true
 }
